@@ -303,14 +303,22 @@ def _get_dict(data):
             return json.loads(data)
         except TypeError:
             pass
+        except RecursionError:
+            raise ValueError("JSON content is nested too deeply.")
         try:
             return json.load(data)
         except AttributeError:
             pass
+        except RecursionError:
+            raise ValueError("JSON content is nested too deeply.")
         try:
             return dict(data)
         except (ValueError, TypeError):
-            raise ValueError("Cannot convert '%s' to dictionary." % str(data))
+            try:
+                shown = str(data)
+            except RecursionError:
+                shown = "<%s nested too deeply>" % type(data).__name__
+            raise ValueError("Cannot convert '%s' to dictionary." % shown)
 
 
 def get_class_hierarchy_names(obj):
